@@ -253,6 +253,7 @@ type normFile struct {
 }
 
 type normalizer struct {
+	pkgVarW map[*types.Var]bool // package-level variables that some statement writes (lazily computed)
 	w        *World
 	newFns   map[*types.Func]*Func
 	lg       *normLog
@@ -341,8 +342,44 @@ func (n *normalizer) run() map[string]normFile {
 		}
 	}
 	for obj, f := range n.newFns {
-		if refs[obj] != 0 || ast.IsExported(f.Decl.Name.Name) || (f.Decl.Recv != nil && ifaceNames[f.Decl.Name.Name]) {
+		if refs[obj] != 0 || ast.IsExported(f.Decl.Name.Name) {
 			continue
+		}
+		if f.Decl.Recv != nil && ifaceNames[f.Decl.Name.Name] {
+			// a method whose name some interface declares stays only if its receiver type (or a pointer to it) implements
+			// a module interface that declares it: otherwise no dynamic call can reach it
+			needed := false
+			if sig := f.Sig(); sig != nil && sig.Recv() != nil {
+				rt := sig.Recv().Type()
+				base := rt
+				if p, ok := rt.(*types.Pointer); ok {
+					base = p.Elem()
+				}
+				for _, pkg := range n.w.Pkgs {
+					for _, o := range pkg.TypesInfo.Defs {
+						tn, ok := o.(*types.TypeName)
+						if !ok {
+							continue
+						}
+						it, ok := tn.Type().Underlying().(*types.Interface)
+						if !ok || it.NumMethods() == 0 {
+							continue
+						}
+						declares := false
+						for i := 0; i < it.NumMethods(); i++ {
+							if it.Method(i).Name() == f.Decl.Name.Name {
+								declares = true
+							}
+						}
+						if declares && (types.Implements(base, it) || types.Implements(types.NewPointer(base), it)) {
+							needed = true
+						}
+					}
+				}
+			}
+			if needed {
+				continue
+			}
 		}
 		file := n.fileOf(f)
 		if file == nil {
